@@ -125,6 +125,29 @@ fn preset_legacy(book: &mut Spreadsheet, kind: Kind) {
     }
 }
 
+fn set_password_by_replacing(book: &mut Spreadsheet, kind: Kind, pw: &str) {
+    match kind {
+        Kind::Sheet => {
+            let mut p = umya_spreadsheet::SheetProtection::default();
+            p.set_sheet(true);
+            p.set_password(pw);
+            book.get_sheet_mut(&0).expect("sheet 0").set_sheet_protection(p);
+        }
+        Kind::Workbook => {
+            let mut p = umya_spreadsheet::WorkbookProtection::default();
+            p.set_lock_structure(true);
+            p.set_workbook_password(pw);
+            book.set_workbook_protection(p);
+        }
+        Kind::Revisions => {
+            let mut p = umya_spreadsheet::WorkbookProtection::default();
+            p.set_lock_revision(true);
+            p.set_revisions_password(pw);
+            book.set_workbook_protection(p);
+        }
+    }
+}
+
 fn set_password(book: &mut Spreadsheet, kind: Kind, pw: &str) {
     match kind {
         Kind::Sheet => {
@@ -152,7 +175,12 @@ struct Case {
     legacy_preset: bool,
     light: bool,
     host: Host,
+    /// the object already carries a verifier for PREVIOUS_PW (set through the _mut accessor); the password of the case is
+    /// then set on a SEPARATE protection object that replaces it (Worksheet::set_sheet_protection /
+    /// Spreadsheet::set_workbook_protection)
+    replace: bool,
 }
+const PREVIOUS_PW: &str = "the previous secret";
 
 impl Case {
     fn tags(&self) -> Vec<String> {
@@ -176,6 +204,9 @@ impl Case {
         if self.legacy_preset {
             t.push("legacy-preset".into());
         }
+        if self.replace {
+            t.push("object-replaced".into());
+        }
         if self.light {
             t.push("writer-light".into());
         }
@@ -191,6 +222,7 @@ impl Case {
         json!({
             "set": self.assign.iter().map(|(k, p)| json!({"kind": k.name(), "password": p.text, "password_utf16_units": p.text.encode_utf16().count()})).collect::<Vec<_>>(),
             "legacy_raw_hash_preset": self.legacy_preset,
+            "how": if self.replace { "the object first gets a verifier for another password through the _mut accessor; the password of the case is set on a separate protection object installed with set_sheet_protection / set_workbook_protection" } else { "through the _mut accessor" },
             "writer": if self.light { "write_writer_light" } else { "write_writer" },
             "host": match self.host { Host::NewFile => "new_file()".to_string(), Host::Corpus(f) => format!("tests/test_files/{}", f) },
         })
@@ -216,7 +248,7 @@ fn cases(tier: Tier) -> Vec<Case> {
         for legacy_preset in [false, true] {
             for pw in &pws {
                 for k in KINDS {
-                    v.push(Case { assign: vec![(k, pw.clone())], legacy_preset, light, host: Host::NewFile });
+                    v.push(Case { assign: vec![(k, pw.clone())], legacy_preset, light, host: Host::NewFile, replace: false });
                 }
             }
         }
@@ -234,8 +266,14 @@ fn cases(tier: Tier) -> Vec<Case> {
                 if tier == Tier::Quick && (rot > 0 && light) {
                     continue;
                 }
-                v.push(Case { assign: (0..3).map(|j| (KINDS[j], t[(j + rot) % 3].clone())).collect(), legacy_preset: rot == 1, light, host: Host::NewFile });
+                v.push(Case { assign: (0..3).map(|j| (KINDS[j], t[(j + rot) % 3].clone())).collect(), legacy_preset: rot == 1, light, host: Host::NewFile, replace: false });
             }
+        }
+    }
+    // a protection object with a password replaces one that already had another password
+    for (n, pw) in [by("password"), by("🔑🔑")].into_iter().enumerate() {
+        for k in KINDS {
+            v.push(Case { assign: vec![(k, pw.clone())], legacy_preset: false, light: n == 1, host: Host::NewFile, replace: true });
         }
     }
     // real workbooks as hosts
@@ -243,7 +281,7 @@ fn cases(tier: Tier) -> Vec<Case> {
     for h in CORPUS_HOSTS {
         for pw in &host_pws {
             for k in KINDS {
-                v.push(Case { assign: vec![(k, pw.clone())], legacy_preset: false, light: false, host: Host::Corpus(h) });
+                v.push(Case { assign: vec![(k, pw.clone())], legacy_preset: false, light: false, host: Host::Corpus(h), replace: false });
             }
         }
     }
@@ -426,7 +464,15 @@ impl Space for Protect {
             sink.beat.note(&format!("C15 case {}: set {} password", i, k.name()));
             let (kk, pp) = (*k, p.text.clone());
             let b = &mut book;
-            if let Err(m) = guarded(move || set_password(b, kk, &pp)) {
+            let replace = c.replace;
+            if let Err(m) = guarded(move || {
+                if replace {
+                    set_password(b, kk, PREVIOUS_PW);
+                    set_password_by_replacing(b, kk, &pp)
+                } else {
+                    set_password(b, kk, &pp)
+                }
+            }) {
                 push(sink, "call", &format!("panic:{}", panic_class(&m)), format!("setting the {} password panicked: {}", k.name(), m));
                 return;
             }
@@ -444,6 +490,12 @@ impl Space for Protect {
             };
             sink.obs(&format!("{}|{}|{}|{}|{}", k.name(), p.text, o.alg, o.spin, o.raw));
             self.check_obs(&o, *k, p, &c, "model", sink, &push);
+            if c.replace {
+                sink.evaluations += 1;
+                if let Verdict::Verifies = verify(&o, PREVIOUS_PW, false) {
+                    push(sink, "wrong-password", "previous-password-still-accepted", format!("the {} verifier accepts the password the replaced object had ({:?}) instead of the one set last ({:?})", k.name(), PREVIOUS_PW, p.text));
+                }
+            }
             if let Ok(s) = STANDARD.decode(&o.salt) {
                 items.push(("salt".to_string(), format!("{}-salt", k.name()), 0u32, hex(&s)));
             }
